@@ -13,6 +13,9 @@ def declare(ct):
       node_list="list[list[ref:$N]]")
     F("KaryPartition", K="int")
     F("RandomKaryPartition", K="int")
+    # K is written once, by the constructor; documented range K >= 2 (a field invariant: checked at the store, assumed at reads)
+    ct.field_inv[("KaryPartition", "K")] = ("K >= 2", lambda t: t >= 2)
+    ct.field_inv[("RandomKaryPartition", "K")] = ("K >= 2", lambda t: t >= 2)
     # ---- node classes of the algorithms
     F("HOO_node", b_value="float", u_value="float", visited_times="int", rewards="list[real]", mean_reward="real")
     F("HCT_node", b_value="float", u_value="float", visited_times="int", rewards="list[real]", mean_reward="real")
